@@ -9,6 +9,7 @@ out.append("### 9.3 Seeded changes (independent sub-agents, confirmed, then run 
 out.append("Each row: a change written by a fresh sub-agent that saw only the property text and a scratch worktree; `confirmed` = patch applies to the repository HEAD, builds, the existing suite passes with it, its demonstration fails with it and passes without it (all re-run by `lib/seeded.py`). The check was run from a scratch copy of /verif against a scratch copy of the repository with the patch applied.\n")
 out.append("| seeded change | property | confirmed | caught by quick check | first signatures | wall s |")
 out.append("|---|---|---|---|---|---|")
+VOID = json.load(open(os.path.join(V, "seeded", "void_first_runs.json"))) if os.path.exists(os.path.join(V, "seeded", "void_first_runs.json")) else {}
 NOTES = json.load(open(os.path.join(V, "seeded", "strengthening_notes.json"))) if os.path.exists(os.path.join(V, "seeded", "strengthening_notes.json")) else {}
 for d in sorted(glob.glob(os.path.join(V, "seeded", "*", "meta.json"))):
     m = json.load(open(d))
@@ -16,8 +17,10 @@ for d in sorted(glob.glob(os.path.join(V, "seeded", "*", "meta.json"))):
         sigs = "; ".join(s.replace("|", "\\|")[:70] for s in r.get("signatures", [])[:2])
         # an earlier run that ended with exit 2 (build of the snapshot failed, time limit) decided nothing
         earlier = [(h.get("earlier_result") or {}) for h in m.get("history", []) if h.get("check") == c]
-        missed_first = any(e.get("caught") is False and e.get("exit") != 2 for e in earlier)
-        void_first = any(e.get("exit") == 2 for e in earlier) and not missed_first
+        # (only the runs listed in seeded/void_first_runs.json: an exit 2 because the changed code made the check
+        # hang is a miss like any other)
+        void_first = m["name"] in VOID and any(e.get("exit") == 2 for e in earlier)
+        missed_first = any(e.get("caught") is False and not (void_first and e.get("exit") == 2) for e in earlier)
         verdict = '**yes**' if r.get('caught') else 'no'
         if r.get('caught') and missed_first:
             verdict = '**yes** (missed by the check as it stood; strengthened, then caught)'
